@@ -292,7 +292,8 @@ def run(ctx):
     for j in range(20 if ctx.quick else 200):
         rows = random_table(rng, int(rng.integers(3, 12)), nkeys=1)
         stale = "".join("STALE_LINE_%d\tx\ty\n" % i for i in range(1 + j % 3)) if j % 4 else pin_text(random_table(rng, 4, id0=900, nkeys=1))
-        cli.append({"text": pin_text(rows, nprot=2 + j % 2), "stale": stale})
+        # every third input is already a valid TSV (one protein per row: the verify step has nothing to convert)
+        cli.append({"text": pin_text(rows, nprot=1 if j % 3 == 2 else 2 + j % 2), "stale": stale})
     ctx.cov["io_calls_per_earlier_run"] = ncalls
     ctx.phase("driving")
     run_scenario(scenarios[0])
